@@ -2,7 +2,10 @@ package dawn
 
 import (
 	"bytes"
+	"encoding/base64"
+	"io"
 
+	"github.com/pgavlin/dawn/label"
 	"github.com/pgavlin/dawn/pickle"
 	"go.starlark.net/starlark"
 )
@@ -95,5 +98,69 @@ func VHarnessC15RecordShape() {
 	vAssert(err != nil || !eq, "wrong-shaped-record-is-not-up-to-date")
 	if err != nil {
 		vReach("error")
+	}
+}
+
+// ---------------------------------------------------------------- function.load on a corrupt record
+
+var vStubTableFor = map[string]map[string]string{"VHarnessC15Load": {
+	"(*github.com/pgavlin/dawn.Project).loadTargetInfo": "vLoadInfo15",
+	"(*github.com/pgavlin/dawn.Project).saveTargetInfo": "vSaveInfo15",
+	"encoding/base64.NewDecoder":                        "vB64Dec15",
+	"io.CopyN":                                          "vCopyN15",
+}}
+
+// vCopyN15: io.CopyN byte by byte, as in the pickle package's C15 units (the size of the buffer the
+// real io.Copy allocates for an over-long declared length is what this leaves out)
+func vCopyN15(dst io.Writer, src io.Reader, n int64) (int64, error) {
+	var written int64
+	var buf [1]byte
+	for written < n {
+		if _, err := src.Read(buf[:]); err != nil {
+			return written, err
+		}
+		dst.Write(buf[:])
+		written++
+	}
+	return written, nil
+}
+
+var vZeroOK = []string{"encoding/base64.StdEncoding"}
+
+var vStamp15 string
+
+func vLoadInfo15(p *Project, l *label.Label) (targetInfo, error) {
+	return targetInfo{Data: vStamp15}, nil
+}
+func vSaveInfo15(p *Project, l *label.Label, info targetInfo) error { return nil }
+func vB64Dec15(enc *base64.Encoding, r io.Reader) io.Reader         { return r }
+
+// VHarnessC15Load: the real function.load on a record whose stamp is any byte string of length n
+// (base64 is the identity here: every byte string is the decoding of some stamp), loaded three times
+// in one process by fresh function objects, as Project.Reload does in watch mode and the REPL: every
+// load gives the same verdict — the decoded environment or an error — and none panics or yields nil.
+func VHarnessC15Load() {
+	n := vParam("n")
+	b := make([]byte, n)
+	for i := range b {
+		b[i] = vNondetU8("stamp")
+		vAssume(b[i] != 'I') // the decimal-text opcode INT is covered by the pickle package's int-text unit
+	}
+	vStamp15 = string(b)
+	var firstErr error
+	for round := 0; round < 3; round++ {
+		f := &function{}
+		err := f.load()
+		vAssert(err != nil || f.oldEnv != nil, "load-yields-value-or-error")
+		if round == 0 {
+			firstErr = err
+		} else {
+			vAssert((err == nil) == (firstErr == nil), "same-record-same-verdict-on-every-load")
+		}
+	}
+	if firstErr != nil {
+		vReach("corrupt")
+	} else {
+		vReach("intact")
 	}
 }
